@@ -108,8 +108,17 @@ def history_obligation(cfg):
         from ..assembly import sym_symmetric
         W = sym_symmetric("W", CDIM[cfg[3]])
         e = make_edge(it, cfg, q1, q2, zz, off2, info=W)
-        it.call_method(e, "calc_error", [])
+        e_first = it.call_method(e, "calc_error", [])
         it.call_method(e, "calc_chi2", [])
+        # an export in between is a query too: the error afterwards is the error before
+        from ..interp import PathRaise
+        try:
+            it.call_method(e, "to_g2o", [])
+        except PathRaise:
+            pass                      # kinds the format cannot express are refused (C13)
+        e_again = it.call_method(e, "calc_error", [])
+        if isinstance(e_first, Arr) and isinstance(e_again, Arr) and not e_first.same(e_again):
+            raise ObFail("%s: calc_error changes after the edge was exported with to_g2o (the export modified the edge)" % cfg_name(cfg))
         sa(e, "estimate", z)
         if off is not None:
             sa(e, "offset", off)
